@@ -285,7 +285,8 @@ class Interp:
         if isinstance(f, types.BuiltinMethodType) or isinstance(f, types.BuiltinFunctionType) \
                 or isinstance(f, types.MethodWrapperType) or isinstance(f, types.MethodDescriptorType):
             bm = models.lookup_bound(f)
-            if bm is not None and (has_sym(args) or has_sym(getattr(f, '__self__', None), 1)):
+            if bm is not None and (has_sym(args) or has_sym(getattr(f, '__self__', None), 2) or
+                                   any(isinstance(v, InterpFunction) for v in kwargs.values())):
                 return self.native(lambda *a, **k: bm(self, f.__self__, *a, **k), args, kwargs)
             return self.native(f, args, kwargs)
         if hasattr(type(f), '__call__') and not isinstance(f, type):
